@@ -301,3 +301,45 @@ Proof.
     apply (Hsub l0 (HArr es) (firstn (Z.to_nat n) es) eq_refl E1). intros w Hw. exact (firstn_In _ _ _ Hw).
   - reflexivity.
 Qed.
+
+(* ---- allocate-and-store-into-your-own programs leave every earlier location as it was ----------- *)
+Lemma hset_length h l c : length (hset h l c) = length h.
+Proof. induction h as [|[k c0] r IH]; cbn [hset]; [reflexivity|]. destruct (Z.eqb k l); cbn [length]; [reflexivity | rewrite IH; reflexivity]. Qed.
+
+Lemma hstep_length_le h o : (length h <= length (hstep h o))%nat.
+Proof. destruct o as [c|l c]; cbn [hstep alloc snd]; [rewrite app_length; cbn [length]; lia | rewrite hset_length; lia]. Qed.
+
+Theorem fresh_only_keeps_old_heap : forall ops h0 h,
+  dense h0 -> fresh_only (Z.of_nat (length h0)) ops = true ->
+  (forall l c, hget h0 l = Some c -> hget h l = Some c) ->
+  forall l c, hget h0 l = Some c -> hget (fold_left hstep ops h) l = Some c.
+Proof.
+  induction ops as [|o ops IH]; intros h0 h Hd Hf Hold l c Hl; cbn [fold_left]; [apply Hold; exact Hl|].
+  cbn [fresh_only forallb] in Hf. apply Bool.andb_true_iff in Hf. destruct Hf as [Ho Hf].
+  apply (IH h0 (hstep h o) Hd Hf); [|exact Hl].
+  intros l' c' Hl'. destruct o as [c0|l0 c0]; cbn [hstep alloc snd].
+  - apply hget_app_old. apply Hold; exact Hl'.
+  - rewrite hget_hset_other; [apply Hold; exact Hl'|].
+    apply Z.leb_le in Ho. pose proof (dense_bound h0 l' c' Hd (hget_In _ _ _ Hl')) as Hb. lia.
+Qed.
+
+Corollary fresh_only_keeps_snapshot : forall fuel ops h v,
+  dense h -> fresh_only (Z.of_nat (length h)) ops = true ->
+  (forall l, Reach h v l -> hget h l <> None) ->
+  tree_of fuel (fold_left hstep ops h) v = tree_of fuel h v.
+Proof.
+  intros fuel ops h v Hd Hf Hr.
+  assert (Hold : forall l c, hget h l = Some c -> hget (fold_left hstep ops h) l = Some c).
+  { apply (fresh_only_keeps_old_heap ops h h Hd Hf). intros l c H; exact H. }
+  revert v Hr. induction fuel as [|f IH]; intros v Hr; cbn [tree_of]; [reflexivity|].
+  destruct v as [s|z|b| | |l|l n|l]; try reflexivity.
+  - destruct (hget h l) as [c|] eqn:E; [|exfalso; apply (Hr l); [apply R_here; reflexivity | exact E]].
+    rewrite (Hold l c E). destruct c as [k fs|es|kvs]; try reflexivity.
+    + f_equal. apply map_ext_in. intros w Hw. apply IH. intros l' Hl'. apply Hr. exact (R_step h (HPtr l) l _ w l' eq_refl E Hw Hl').
+    + f_equal. apply map_ext_in. intros w Hw. apply IH. intros l' Hl'. apply Hr. exact (R_step h (HPtr l) l _ w l' eq_refl E Hw Hl').
+  - destruct (hget h l) as [c|] eqn:E; [|exfalso; apply (Hr l); [apply R_here; reflexivity | exact E]].
+    rewrite (Hold l c E). destruct c as [k fs|es|kvs]; try reflexivity.
+    f_equal. apply map_ext_in. intros w Hw. apply IH. intros l' Hl'. apply Hr. exact (R_step h (HSl l n) l _ w l' eq_refl E (firstn_In _ _ _ Hw) Hl').
+  - destruct (hget h l) as [c|] eqn:E; [|exfalso; apply (Hr l); [apply R_here; reflexivity | exact E]].
+    rewrite (Hold l c E). reflexivity.
+Qed.
